@@ -25,6 +25,7 @@ type backendCall struct {
 	Kind  string
 	Arg   int64
 	InAt  int64 // UpdatedAt of the state handed in (0 for create)
+	InCur int   // CurrentPlayer of the state handed in
 	OutAt int64 // UpdatedAt of the state returned (0 on error)
 	Err   string
 	Opts  *pokerface.GameOptions // create only
@@ -49,6 +50,7 @@ func (r *recorder) rec(kind string, arg int64, in *pokerface.GameState, out *pok
 	c := backendCall{Ord: len(r.calls), Kind: kind, Arg: arg}
 	if in != nil {
 		c.InAt = in.UpdatedAt
+		c.InCur = in.Status.CurrentPlayer
 	}
 	if err != nil {
 		c.Err = err.Error()
